@@ -188,3 +188,115 @@ Proof.
   - discriminate.
   - discriminate.
 Qed.
+
+(* ------------------------------------------------------------------ pk_cost against script_size
+   The two figures are computed by different code (ExtData rules vs Miniscript::script_size). They
+   agree on the class [size_wf]: Ctx::pk_len equals the key-byte constant of the pk_k rule
+   (false for uncompressed keys unless repaired: finding repair:unc), multi with k, n < 128,
+   multi_a with 1 <= n <= 16 (beyond: the rule adds multi's cost of pushing n, which multi_a does
+   not push). With script_size = encoded length (C04: script_size_ok) this gives pk_cost = length. *)
+Fixpoint size_wf (fx : fixes) (c : xctx) (m : ms) : bool :=
+  match m with
+  | MPkK k => xc_pklen c k =? fst (key_sig_bytes fx (xc_schnorr c) (xc_unc c k))
+  | MMulti k ks | MSortedMulti k ks =>
+    (k <? 128) && (N.of_nat (length ks) <? 128)
+    && forallb (fun key => xc_pklen c key =? (if xc_unc c key then 66 else 34)) ks
+  | MMultiA k ks | MSortedMultiA k ks =>
+    (k <? 128) && (1 <=? N.of_nat (length ks)) && (N.of_nat (length ks) <=? 16)
+    && forallb (fun key => xc_pklen c key =? 33) ks
+  | MAlt x | MSwap x | MCheck x | MDupIf x | MVerify x | MNonZero x | MZeroNotEqual x => size_wf fx c x
+  | MAndV x y | MAndB x y | MOrB x y | MOrD x y | MOrC x y | MOrI x y => size_wf fx c x && size_wf fx c y
+  | MAndOr x y z => size_wf fx c x && size_wf fx c y && size_wf fx c z
+  | MThresh _ xs => (fix go (l : list ms) : bool := match l with [] => true | x :: r => size_wf fx c x && go r end) xs
+  | _ => true
+  end.
+
+Lemma fold_add_pk (subs : list ext) a :
+  fold_left (fun acc s => acc + pk_cost s) subs a = a + sum_map pk_cost subs.
+Proof.
+  revert a. induction subs as [|s r IH]; intros a; cbn [fold_left sum_map fold_right]; [lia|].
+  rewrite IH. fold (sum_map pk_cost r). lia.
+Qed.
+Lemma num_cost_multi k n : k < 128 -> n < 128 -> num_cost k n = script_num_size k + script_num_size n.
+Proof.
+  intros Hk Hn. unfold num_cost, script_num_size.
+  destruct (N.ltb_spec 16 k), (N.ltb_spec 16 n), (N.leb_spec k 16), (N.leb_spec n 16),
+    (N.ltb_spec k 128), (N.ltb_spec n 128); lia.
+Qed.
+Lemma num_cost_multi_a k n : k < 128 -> n <= 16 -> num_cost k n = script_num_size k + 1.
+Proof.
+  intros Hk Hn. unfold num_cost, script_num_size.
+  destruct (N.ltb_spec 16 k), (N.ltb_spec 16 n), (N.leb_spec k 16), (N.ltb_spec k 128); lia.
+Qed.
+Lemma sum_pklen_multi c ks :
+  forallb (fun key => xc_pklen c key =? (if xc_unc c key then 66 else 34)) ks = true ->
+  sum_map (xc_pklen c) ks = fold_right (fun (u : bool) a => (if u then 66 else 34) + a) 0 (map (xc_unc c) ks).
+Proof.
+  induction ks as [|k r IH]; intros H; [reflexivity|]. cbn [forallb] in H. apply andb_prop in H. destruct H as [Hk Hr].
+  apply N.eqb_eq in Hk. cbn [sum_map fold_right map]. fold (sum_map (xc_pklen c) r). rewrite (IH Hr), Hk. reflexivity.
+Qed.
+Lemma sum_pklen_33 c ks :
+  forallb (fun key => xc_pklen c key =? 33) ks = true -> sum_map (xc_pklen c) ks = 33 * N.of_nat (length ks).
+Proof.
+  induction ks as [|k r IH]; intros H; [reflexivity|]. cbn [forallb] in H. apply andb_prop in H. destruct H as [Hk Hr].
+  apply N.eqb_eq in Hk. cbn [sum_map fold_right length]. fold (sum_map (xc_pklen c) r). rewrite (IH Hr), Hk. lia.
+Qed.
+
+Theorem ext_pk_cost_is_size fx c m :
+  size_wf fx c m = true -> pk_cost (ext_of_gen fx c m) = script_size_gen fx c m.
+Proof.
+  induction m using ms_ind_ext; cbn [size_wf ext_of_gen script_size_gen]; intros Hw.
+  - reflexivity.
+  - reflexivity.
+  - apply N.eqb_eq in Hw. rewrite Hw. unfold ext_pk_k. destruct (key_sig_bytes fx (xc_schnorr c) (xc_unc c k)). reflexivity.
+  - unfold ext_pk_h. destruct (key_sig_bytes fx (xc_schnorr c) (xc_unc c k)). reflexivity.
+  - unfold ext_pk_h. destruct (key_sig_bytes fx (xc_schnorr c) false). reflexivity.
+  - reflexivity.
+  - reflexivity.
+  - reflexivity. - reflexivity. - reflexivity. - reflexivity.
+  - cbn [ext_cast_alt pk_cost]. rewrite (IHm Hw). lia.
+  - cbn [ext_cast_swap pk_cost]. rewrite (IHm Hw). lia.
+  - cbn [ext_cast_check pk_cost]. rewrite (IHm Hw). lia.
+  - unfold ext_cast_dupif. cbn [pk_cost]. rewrite (IHm Hw). lia.
+  - unfold ext_cast_verify. cbn [pk_cost]. rewrite (IHm Hw). lia.
+  - cbn [ext_cast_nonzero pk_cost]. rewrite (IHm Hw). lia.
+  - cbn [ext_cast_zeronotequal pk_cost]. rewrite (IHm Hw). lia.
+  - apply andb_prop in Hw. destruct Hw as [H1 H2]. unfold ext_and_v. cbn [pk_cost]. rewrite (IHm1 H1), (IHm2 H2). lia.
+  - apply andb_prop in Hw. destruct Hw as [H1 H2]. cbn [ext_and_b pk_cost]. rewrite (IHm1 H1), (IHm2 H2). lia.
+  - apply andb_prop in Hw. destruct Hw as [H12 H3]. apply andb_prop in H12. destruct H12 as [H1 H2].
+    cbn [ext_and_or pk_cost]. rewrite (IHm1 H1), (IHm2 H2), (IHm3 H3). lia.
+  - apply andb_prop in Hw. destruct Hw as [H1 H2]. cbn [ext_or_b pk_cost]. rewrite (IHm1 H1), (IHm2 H2). lia.
+  - apply andb_prop in Hw. destruct Hw as [H1 H2]. cbn [ext_or_d pk_cost]. rewrite (IHm1 H1), (IHm2 H2). lia.
+  - apply andb_prop in Hw. destruct Hw as [H1 H2]. cbn [ext_or_c pk_cost]. rewrite (IHm1 H1), (IHm2 H2). lia.
+  - apply andb_prop in Hw. destruct Hw as [H1 H2]. cbn [ext_or_i pk_cost]. rewrite (IHm1 H1), (IHm2 H2). lia.
+  - (* thresh *)
+    unfold ext_threshold. cbn [pk_cost]. rewrite fold_add_pk.
+    assert (G : forall l, Forall (fun m => size_wf fx c m = true -> pk_cost (ext_of_gen fx c m) = script_size_gen fx c m) l ->
+                (fix go (l : list ms) : bool := match l with [] => true | x :: r => size_wf fx c x && go r end) l = true ->
+                sum_map pk_cost ((fix go (l : list ms) : list ext :=
+                                    match l with [] => [] | x :: r => ext_of_gen fx c x :: go r end) l)
+                = (fix go (l : list ms) : N := match l with [] => 0 | x :: r => script_size_gen fx c x + go r end) l).
+    { induction l as [|x r IHl]; intros HF Hg; [reflexivity|].
+      inversion HF as [|? ? Hx HF']; subst. apply andb_prop in Hg. destruct Hg as [Hg1 Hg2].
+      cbn [sum_map fold_right]. fold (sum_map pk_cost
+        ((fix go (l : list ms) : list ext := match l with [] => [] | x0 :: r0 => ext_of_gen fx c x0 :: go r0 end) r)).
+      rewrite (Hx Hg1), (IHl HF' Hg2). reflexivity. }
+    rewrite (G xs H Hw), go_ext_len. lia.
+  - (* multi *) apply andb_prop in Hw. destruct Hw as [Hw Hk3]. apply andb_prop in Hw. destruct Hw as [Hk1 Hk2].
+    apply N.ltb_lt in Hk1. apply N.ltb_lt in Hk2.
+    unfold ext_multi. cbn [pk_cost]. rewrite map_length, (num_cost_multi _ _ Hk1 Hk2), (sum_pklen_multi c ks Hk3). lia.
+  - apply andb_prop in Hw. destruct Hw as [Hw Hk3]. apply andb_prop in Hw. destruct Hw as [Hk1 Hk2].
+    apply N.ltb_lt in Hk1. apply N.ltb_lt in Hk2.
+    unfold ext_multi. cbn [pk_cost]. rewrite map_length, (num_cost_multi _ _ Hk1 Hk2), (sum_pklen_multi c ks Hk3). lia.
+  - (* multi_a *) apply andb_prop in Hw. destruct Hw as [Hw Hk4]. apply andb_prop in Hw. destruct Hw as [Hw Hk3].
+    apply andb_prop in Hw. destruct Hw as [Hk1 Hk2]. apply N.ltb_lt in Hk1. apply N.leb_le in Hk2. apply N.leb_le in Hk3.
+    unfold ext_multi_a. cbn [pk_cost]. rewrite (num_cost_multi_a _ _ Hk1 Hk3), (sum_pklen_33 c ks Hk4). lia.
+  - apply andb_prop in Hw. destruct Hw as [Hw Hk4]. apply andb_prop in Hw. destruct Hw as [Hw Hk3].
+    apply andb_prop in Hw. destruct Hw as [Hk1 Hk2]. apply N.ltb_lt in Hk1. apply N.leb_le in Hk2. apply N.leb_le in Hk3.
+    unfold ext_multi_a. cbn [pk_cost]. rewrite (num_cost_multi_a _ _ Hk1 Hk3), (sum_pklen_33 c ks Hk4). lia.
+Qed.
+
+(* the rule's constant for an uncompressed key is one short of Ctx::pk_len: pk_cost < script_size *)
+Lemma ext_pk_cost_refuted_unc :
+  pk_cost (ext_of cx_legacy (MCheck (MPkK 6))) < script_size cx_legacy (MCheck (MPkK 6)).
+Proof. vm_compute. reflexivity. Qed.
